@@ -83,7 +83,11 @@ MCCells == <<
     Ce("dt", 4, 0, 0, 0), Ce("dt", 5, 0, 0, 0),      \* the instants of 1 and 3 in other zones: other cell contents
     Ce("coord", 0, 1500000, 2500000, 0), Ce("coord", 0, 1500002, 2500000, 0), Ce("coord", 0, 1500000, 2500002, 0),
     Ce("list", 1, 0, 0, 0), Ce("list", 2, 0, 0, 0), Ce("dict", 1, 0, 0, 0),
-    Ce("list", 3, 0, 0, 0), Ce("list", 4, 0, 0, 0) >>     \* lists holding quantities of different units
+    Ce("list", 3, 0, 0, 0), Ce("list", 4, 0, 0, 0),       \* lists holding quantities of different units
+    \* the tolerance is absolute: two thousand and two thousand plus two millionths differ like 1.5 and 1.500002 do
+    \* (a relative tolerance of 1e-9 would call them equal)
+    Ce("num", 0, 2000000000, 0, 0), Ce("num", 0, 2000000002, 0, 0),
+    Ce("qty", 1, 2000000000, 0, 0), Ce("qty", 1, 2000000002, 0, 0) >>
 
 MCNonGrids == <<MCCells[1], MCCells[2], MCCells[7], MCCells[21], MCCells[43], MCCells[45]>>
 
